@@ -151,6 +151,10 @@ def run(chk, scratch):
         jobs.append((9000 + chk.seed * 10 + k, ("sensitive_ont", "all", "default_pacbio")[k], ("nanopore", "assembly", "pacbio_ccs")[k], True))
     if thorough:
         jobs.append((9000 + chk.seed * 10, "sensitive_ont", "nanopore", False))
+    # one more annotated run per tier that is killed right after its first chromosome was marked as processed and then resumed: the
+    # statement speaks about the output annotations of every run that finishes
+    jobs = [j + (False,) for j in jobs]
+    jobs.append(jobs[0][:4] + (True,))
     worlds = {}
     for seed in sorted(set(j[0] for j in jobs)):
         d = os.path.join(scratch, "w%d" % seed)
@@ -176,12 +180,20 @@ def run(chk, scratch):
         worlds[seed] = (d, w, id_map)
 
     def one(job):
-        seed, st, dt, annotated = job
+        seed, st, dt, annotated, resumed = job
         d, w, _ = worlds[seed]
-        out = os.path.join(d, "out_%s_%s_%s" % (st, dt, annotated))
+        out = os.path.join(d, "out_%s_%s_%s%s" % (st, dt, annotated, "_resumed" if resumed else ""))
         ev = out + "_ev"
         # every other job switches the polyA requirement off, so that loci seen from several regions without polyA evidence also yield models
         pr = ["--polya_requirement", "never"] if (seed + len(st) + len(dt)) % 2 == 0 else []
+        if resumed:
+            r1 = pipeline.run(d, out, data_type=dt, threads=1, annotated=annotated, home=out + "_home",
+                              extra=["--model_construction_strategy", st, "--report_novel_unspliced", "true"] + pr, mon=["crash"],
+                              cfg={"crash_root": out, "crash_path": "_processed", "crash_path_k": 1, "crash_after": True}, events=ev)
+            r = runner.run_isoquant(["--resume", "-o", out], out + "_home") if r1["rc"] == 137 else dict(r1, rc=None)
+            r["n_split"] = 0
+            r["killed"] = r1["rc"] == 137
+            return job, out, r
         r = pipeline.run(d, out, data_type=dt, threads=1 + (seed + len(st)) % 2, annotated=annotated, home=out + "_home",
                          extra=["--model_construction_strategy", st, "--report_novel_unspliced", "true"] + pr, mon=["split"], events=ev)
         n_split = sum(1 for e in runner.load_events(ev) if e["k"] == "split" and len(e["out"]) > 1)
@@ -190,10 +202,15 @@ def run(chk, scratch):
     total = 0
     novel_total = 0
     for job, out, r in runner.parallel(one, jobs, workers=8):
-        seed, st, dt, annotated = job
+        seed, st, dt, annotated, resumed = job
         d, w, id_map = worlds[seed]
-        desc = "world=%d strategy=%s data_type=%s annotated=%s" % (seed, st, dt, annotated)
-        wit = {"world_seed": seed, "strategy": st, "data_type": dt, "annotated": annotated}
+        desc = "world=%d strategy=%s data_type=%s annotated=%s%s" % (seed, st, dt, annotated, " [killed after the first chromosome was marked as processed, resumed]" if resumed else "")
+        wit = {"world_seed": seed, "strategy": st, "data_type": dt, "annotated": annotated, "killed_and_resumed": resumed}
+        if resumed:
+            if not r.get("killed"):
+                chk.inconclusive.append("the run to be killed and resumed was not killed: " + desc)
+                continue
+            chk.count("killed_and_resumed_runs_judged")
         if r["rc"] is None:
             chk.inconclusive.append("watchdog expired: " + desc)
             continue
